@@ -111,9 +111,26 @@ def gen_valueless(rng):
     return {'pre_isa': pre_isa, 'pre_cli': pre_cli, 'before': [], 'body': body, 'kinds': ['symbol-without-value'], 'forms': forms}
 
 
+def gen_numeric_value(rng):
+    """ISA symbols whose replacement value is written as a number (YAML `value: 5`, JSON `"value": 5`), not as a text:
+    the replacement text is that number's decimal text (D40)"""
+    names = rng.sample(['NUMA', 'NUMB', 'NUMC'], rng.randint(1, 2))
+    forms, pre_isa, body = {}, [], []
+    for n in names:
+        forms[n] = 'isa-int'
+        pre_isa.append([n, str(rng.choice([0, 1, 5, 77, 255, -3, -1, 4096]))])
+    for _ in range(rng.randint(1, 3)):
+        n = rng.choice(names)
+        body.append(('line', rng.choice([f'.2byte 300 + {n}', f'.2byte 100 {n} + 900' if pre_isa[names.index(n)][1].startswith('-')
+                                         else f'.2byte {n}', f'ldw 7 + {n}', f'.2byte 5, {n} + 2'])))
+    return {'pre_isa': pre_isa, 'pre_cli': [], 'before': [], 'body': body, 'kinds': ['symbol-with-numeric-value'], 'forms': forms}
+
+
 def gen_case(rng, tier):
     if rng.random() < 0.05:
         return gen_many(rng)
+    if rng.random() < 0.04:
+        return gen_numeric_value(rng)
     if rng.random() < 0.06:
         return gen_valueless(rng)
     if rng.random() < 0.12:
@@ -229,6 +246,8 @@ def to_impl(case):
                 return {'name': n}
             if how == 'isa-null':
                 return {'name': n, 'value': None}
+            if how == 'isa-int':
+                return {'name': n, 'value': int(t)}
             return {'name': n, 'value': t}
         isa = dict(ISA, predefined={'symbols': [entry(n, t) for n, t in case['pre_isa']]})
     a = impl.compile_case(isa, {'main.asm': asm_with_symbols(case)},
